@@ -55,6 +55,7 @@ func TestVerifCSWorker(t *testing.T) {
 		dl = time.Unix(s, 0)
 	}
 	zzmc.EarlyFail = emit
+	zzmc.HorizonExit = func(zzmc.Failure) { os.Exit(3) }
 	st := zzmc.Explore(t, mk(), zzmc.Options{Bound: bound, Shard: shard, Shards: shards, MaxExecs: maxExecs, Deadline: dl})
 	mu.Lock()
 	_ = out.Encode(csMsg{Type: "stats", Stats: &st})
